@@ -293,6 +293,8 @@ type mapTable struct {
 	Escapes []ssa.Instruction // uses that hand the map elsewhere
 	Lookups []*ssa.Lookup
 	Assigns []*ssa.Store // stores of a map value into the variable itself
+	// keys added by a helper the map is handed to (call-site sensitive): helper(m, k1, k2, ...) { m[k] = v }
+	HelperKeys []string
 }
 
 func (p *Prog) mapTableOf(g *ssa.Global, f *types.Var) mapTable {
@@ -340,10 +342,15 @@ func (p *Prog) mapTableOf(g *ssa.Global, f *types.Var) mapTable {
 					}
 					return
 				}
-				for _, a := range x.Call.Args {
-					if isRef(a) {
-						t.Escapes = append(t.Escapes, in)
+				for ai, a := range x.Call.Args {
+					if !isRef(a) {
+						continue
 					}
+					if keys, ok := p.helperMapKeys(x, ai); ok {
+						t.HelperKeys = append(t.HelperKeys, keys...)
+						continue
+					}
+					t.Escapes = append(t.Escapes, in)
 				}
 			case *ssa.Return:
 				for _, r := range x.Results {
@@ -374,6 +381,75 @@ func (p *Prog) mapKeys(t mapTable) (keys []string, ok bool, why string) {
 			}
 		}
 	}
+	for _, k := range t.HelperKeys {
+		if !seen[k] {
+			seen[k] = true
+			keys = append(keys, k)
+		}
+	}
 	sort.Strings(keys)
 	return keys, true, ""
+}
+
+// helperMapKeys: call hands a map (argument mi) to a module helper that only stores into it with keys taken from
+// another (slice / variadic) parameter; returns the constant keys of that argument at this call site.
+func (p *Prog) helperMapKeys(call *ssa.Call, mi int) ([]string, bool) {
+	g := calleeFn(call.Common())
+	if g == nil || !isModFn(g) || g.Blocks == nil || mi >= len(g.Params) {
+		return nil, false
+	}
+	mp := g.Params[mi]
+	var keys []string
+	ok := true
+	n := 0
+	for _, r := range *mp.Referrers() {
+		switch x := r.(type) {
+		case *ssa.MapUpdate:
+			if x.Map != ssa.Value(mp) {
+				ok = false
+				continue
+			}
+			n++
+			// key: element of a slice parameter
+			var kp *ssa.Parameter
+			derives(x.Key, func(v ssa.Value) bool {
+				if q, isP := v.(*ssa.Parameter); isP && q.Parent() == g {
+					kp = q
+					return true
+				}
+				return false
+			})
+			if kp == nil {
+				ok = false
+				continue
+			}
+			ki := paramIndex(g, kp)
+			if ki < 0 || ki >= len(call.Call.Args) {
+				ok = false
+				continue
+			}
+			var ks []string
+			elems, kok, _ := p.constElems(call.Call.Args[ki], 0)
+			for _, e := range elems {
+				es, eok, _ := p.strSet(e, 0)
+				if !eok {
+					kok = false
+				}
+				ks = append(ks, es...)
+			}
+			if !kok {
+				ok = false
+				continue
+			}
+			keys = append(keys, ks...)
+		case *ssa.Lookup, *ssa.DebugRef:
+		case *ssa.Call:
+			if !isBuiltin(x, "len") {
+				ok = false
+			}
+		default:
+			ok = false
+		}
+	}
+	return keys, ok && n > 0
 }
